@@ -16,6 +16,7 @@ pub mod c13;
 pub mod c14;
 pub mod c15;
 pub mod c16;
+pub mod c17;
 pub mod c18;
 pub mod c19;
 pub mod c20;
@@ -40,6 +41,7 @@ pub fn dispatch(id: &str, tier: Tier, seed: u64, rest: &[String]) -> i32 {
         "C14" => c14::main(tier, seed),
         "C15" => c15::main(tier, seed),
         "C16" => c16::main(tier, seed),
+        "C17" => c17::main(tier, seed),
         "srvdbg" => c13::debug_walk(seed),
         "C18" => c18::main(tier, seed),
         "C10" => c10::main(tier, seed),
